@@ -194,9 +194,20 @@ func Assert(c bool, label string) {
 	}
 }
 
+// activeFindings: ids with status "known" in /verif/known_findings.json (passed by the executor);
+// the signature of a fixed finding suppresses nothing.
+func findingActive(id string) bool {
+	for _, f := range strings.Split(os.Getenv("ZZVERIF_KNOWN"), ",") {
+		if f == id {
+			return true
+		}
+	}
+	return false
+}
+
 func AssertExcept(c bool, label, finding string, signature bool) {
 	if !c {
-		if signature {
+		if signature && findingActive(finding) {
 			cur.res.Known = append(cur.res.Known, label+"@"+finding)
 		} else {
 			cur.res.Failed = append(cur.res.Failed, label)
